@@ -25,7 +25,7 @@ From stdpp Require Import gmap list.
 From Coq Require Import NArith ZArith.
 
 Definition str := list N.
-Definition handle := str.
+Notation handle := str (only parsing).
 
 (* ---- literals ---------------------------------------------------------------------------- *)
 Definition s_true : str := [116; 114; 117; 101]%N.
